@@ -75,13 +75,16 @@ def get_config_value_func(section, key):
     elif meta_const.config_funcs.get(section, {}).get(key, False):
         func = meta_const.config_funcs[section][key]
     elif section == "online_filter":
-        # Note that for "min" and "max" values we do nothing (None)
         if key.endswith("soft limit"):
             # "online_filter:area_um,deform soft limit"
             func = meta_parse.fbool
         elif key.endswith("polygon points"):
             # "online_filter:area_um,deform polygon points"
             func = meta_parse.f2dfloatarray
+        elif key.endswith(" min") or key.endswith(" max"):
+            # "online_filter:area_um min": numbers are kept as they are,
+            # string representations (e.g. from a text file) are converted
+            func = meta_parse.fnumber
 
     if func is None:
         return lambda x: x
